@@ -81,8 +81,12 @@ fn refs_of(v: &VCell, precise: bool, out: &mut Vec<usize>, live_conts: &mut usiz
         }
         VCell::Continuation(cont) => {
             *live_conts += 1;
-            for x in cont.stack().iter() {
-                refs_of(x, precise, out, live_conts);
+            // only the slots up to the saved stack pointer are live in a captured stack
+            let saved = cont.stack();
+            for i in 0..=saved.get_sp() {
+                if let Ok(x) = saved.get(i) {
+                    refs_of(x, precise, out, live_conts);
+                }
             }
             out.push(cont.ip().0);
             out.push(cont.ep());
@@ -115,8 +119,12 @@ fn roots(vm: &Vm, precise: bool, live_conts: &mut usize) -> Vec<(usize, &'static
     let mut out = vec![];
     let mut tmp = vec![];
     let g = vm.verif_globenv();
-    for sym in g.iter_bindings() {
-        out.push((*sym, "global-binding"));
+    // the deep bindings are read through their own hook view, not through the iterator that the
+    // collector itself uses for its root set
+    let mut syms: Vec<usize> = g.verif_bindings().keys().cloned().collect();
+    syms.sort();
+    for sym in syms {
+        out.push((sym, "global-binding"));
     }
     for slot in g.iter_slots() {
         tmp.clear();
